@@ -38,7 +38,14 @@ EXTRA_SQL = [
     "select a from t where b in (select c from u order by d) order by e", "with c as (select a from t order by b) select * from c order by a",
     "select f(a order by b) from t", "select count(distinct a), max(b) from t having max(b) > 1",
     "insert into t (a) select b from u where c = 1 order by d", "update t set a = 1", "delete from t",
+    # the same expression written several times (a replacement must land on the visited occurrence, not on an equal one)
+    "select a, a, a from t", "select a, b, a, b from t where a = a and b = b", "select 1, 1, x, 1 from t group by x, x order by x, x",
+    "select f(a), f(a), a from t where a in (1, 1, a, a)", "select t.a, t.a from t join t on t.a = t.a and t.a = t.a",
+    "select * from t where a = 1 or a = 1 or a = 1", "insert into t (a, a) values (1, 1), (1, 1)", "update t set a = a, b = a where a = a",
+    "select a from t union select a from t", "select (select a from t), (select a from t) from t",
+    "select case when a then a when a then a else a end, a from t", "select a, sum(a) over (partition by a, a order by a, a) from t",
 ]
+DUPLICATES_FROM = "select a, a, a from t"
 
 
 def visits_impl(ast, idmap_fn):
@@ -264,11 +271,15 @@ def run(tier, seed, replay=None):
     stats['deviating_statements'] = code2
     # ---- replacement correspondence
     rrows = []
+    dup_sqls = set(EXTRA_SQL[EXTRA_SQL.index(DUPLICATES_FROM):])
+    todo = []
     for s, tree, vs in good_rows[: (150 if tier == 'quick' else 1500)]:
         ids = [v[0] for v in vs[1:] if v[0] != NONE_ID]
         if not ids:
             continue
-        x = rng.choice(ids)
+        for x in (ids if s in dup_sqls else rng.sample(ids, min(len(ids), 2))):
+            todo.append((s, tree, x))
+    for s, tree, x in todo:
         d = 'mindsdb'
         try:
             ast = parse_sql(s, d)
@@ -316,9 +327,19 @@ def run(tier, seed, replay=None):
             vals = coq_eval_lists(out)
             c3 = [m for m in re.finditer(r'\((\d+), (\d+)\)', vals[-1] if vals else '') if m.group(2) == '3']
             R.obligation(f'replacement correspondence: wrepl model = query_traversal with a replacing callback on {len(rrows)} trees', not c3)
-            if c3:
-                s, t, x, t2 = rrows[int(c3[0].group(1)) - 1]
-                broken.append(BrokenTie(f'replacement model disagrees with query_traversal on `{s}` (target node {x})'))
+            devpos = {(c, f) for c, f, k in devs if k.startswith('replacement_')}
+            for m in c3:
+                s, t, x, t2 = rrows[int(m.group(1)) - 1]
+                # judge on the implementation itself: the tree after the traversal is the tree before it with node x
+                # replaced and nothing else changed
+                want = _subst(t, x, {'id': 9999, 'cls': leaf, 'ch': []})
+                pos = [(c, f) for i, c, f in _positions(t, names_rev, fids_rev) if i == x]
+                if want != t2 and not (set(pos) & devpos):
+                    R.violation({'sql': s, 'visited_node': x, 'position': pos, 'tree_after': coq_tree(t2)[:1500], 'tree_expected': coq_tree(want)[:1500],
+                                 'what': 'a node returned by the visitor did not replace exactly the visited node: the tree after the '
+                                         'traversal differs from the original with that one node substituted'})
+                else:
+                    broken.append(BrokenTie(f'replacement model disagrees with query_traversal on `{s}` (target node {x})'))
     for e in broken:
         if not any(not nf for _, nf in R.violations):
             R.violation({'what': e.what, 'detail': e.detail, 'theorem': 'C13 instance / correspondence'}, nofail=True)
@@ -331,6 +352,12 @@ def run(tier, seed, replay=None):
     R.notes['schedule'] = info['sched']
     R.notes['deviations'] = info['deviations']
     return R.finish()
+
+
+def _subst(tree, x, r):
+    if tree['id'] == x and tree['cls'] != CNONE:
+        return r
+    return {'id': tree['id'], 'cls': tree['cls'], 'ch': [(f, tb, tg, _subst(c, x, r)) for f, tb, tg, c in tree['ch']]}
 
 
 def _positions(tree, names_rev, fids_rev):
